@@ -83,7 +83,9 @@ def streams(ctx, res):
     if not exe:
         return {}
     _run(ctx, res, "randbytes", exe)
-    return {"script_alphabet": "open fails | open ok(fd) | read -1 | read 0 | read 1 | read half | read all (+ all-1, random count, explicit random bytes in the random part)",
+    res.specfail.sort(key=lambda f: len(f["line"]))   # the replay keeps the first 20: shortest scripts first
+    return {"script_alphabet": "open fails | open ok(fd) | read -1 | read 0 | read 1 | read half | read all | read all-1 | read up to a given pointer offset (+ random count, explicit random bytes in the random part)",
+            "descriptor_values": "0, 1, 2, 3, 255, 256, 1023, 1024, 32767, 32768, 65535, 65536, 2147483647 (class histogram: fd=0|1|2|small|large|INT_MAX on every multi-call line)",
             "request_sizes": "0, 1, 32 (full buffers), 2^20+5 (compact buffers); random part: 0..1000, 2^20-1, 2^20, 2^20+1, 2^20+5, 2^21+3",
             "bounded_exhaustive": "quick: all well-typed scripts of length <= 6 for sizes 0/1/32, <= 3 for 2^20+5, <= 3 for 11 multi-call sequences; thorough: 7 / 5 / 5"}
 
@@ -112,7 +114,7 @@ import props as _props  # noqa: E402  (COMMON_TB)
 
 PROP = {
     "streams": streams, "search": search,
-    "rule": "lib/prng/randombytes.cpp linked with --wrap=open,read,sleep; every script of OS answers is played to the real code in a forked child (static fd = -1 at start; multi-call sequences share it) and to the Lean model; compared: full call log (call, arguments incl. pointer offset and request size, answer), buffer (every byte, -1 = never written), number of answers consumed; scripts the code is still looping on when they end are compared too (it must not have returned). Bounded-exhaustive over {open fails, read -1, 0, 1, half, all} + seeded random scripts (random short counts, explicit random bytes, leftovers, 1-4 calls). distinct = distinct script lines; none is trivial",
+    "rule": "lib/prng/randombytes.cpp linked with --wrap=open,read,sleep; every script of OS answers is played to the real code in a forked child (static fd = -1 at start; multi-call sequences share it) and to the Lean model; compared: full call log (call, arguments incl. pointer offset and request size, answer), buffer (every byte, -1 = never written), number of answers consumed; scripts the code is still looping on when they end are compared too (it must not have returned). Bounded-exhaustive over {open fails, read -1, 0, 1, half, all} (and {…, count-1, all} for sizes 2 and 32); the value returned by the successful open is a dimension of its own: {0, 1, 2, 3, 255, 256, 1023, 1024, 32767, 32768, 65535, 65536, INT_MAX} x sequences of calls x 0/1 (thorough: 2) failed opens before it x every script of <= 2 (3) read outcomes and 9 fault patterns followed by enough full reads for all calls to return — reads must be issued on exactly that descriptor and no second open may happen; requests above 1 MiB (2^20+5, 2^21+3; thorough also 2^20+1, 2^20+2, 3·2^20): short reads that leave the pointer at a multiple of the chunk, one before, one after, and that leave chunk-1 / chunk / chunk+1 bytes wanted, then nothing / read -1 / read 0 / read 1, then full reads, a second small call after it; + seeded random scripts (random short counts, explicit random bytes, leftovers, 1-4 calls). distinct = distinct script lines; none is trivial",
     "trusted_base": _props.COMMON_TB + [
         "OS contract (stated in Model/RandomBytes.lean, not verified): open returns -1 or a descriptor >= 0; read(fd,p,n) returns -1, 0 or 1<=k<=n after storing exactly k bytes at p; sleep returns",
         "ld --wrap redirects exactly the open/read/sleep references of randombytes.o to the harness (checked indirectly: every call appears in the compared log; an unwrapped call would read the real /dev/urandom and the buffer comparison would fail)",
